@@ -6,7 +6,7 @@ use crate::{
     attr::{Attr, EnumAttr, FieldAttr, StructAttr, Tagged, VariantAttr},
     deps::Dependencies,
     types::{self, type_as, type_override},
-    utils::make_string_literal,
+    utils::{escape_ts_string, escaped_ts_string, make_string_literal},
     DerivedTS,
 };
 
@@ -117,7 +117,16 @@ fn format_variant(
         }
     };
 
-    let formatted = match (untagged_variant, enum_attr.tagged()?) {
+    // names, tags and contents end up between double quotes
+    let ts_name = escaped_ts_string(&ts_name);
+    let tagged = enum_attr.tagged()?;
+    let (tag, content) = match tagged {
+        Tagged::Adjacently { tag, content } => (escape_ts_string(tag), escape_ts_string(content)),
+        Tagged::Internally { tag } => (escape_ts_string(tag), String::new()),
+        Tagged::Externally | Tagged::Untagged => (String::new(), String::new()),
+    };
+
+    let formatted = match (untagged_variant, tagged) {
         (true, _) | (_, Tagged::Untagged) => quote!(#parsed_ty),
         (false, Tagged::Externally) => match &variant.fields {
             Fields::Unit => quote!(format!("\"{}\"", #ts_name)),
@@ -135,7 +144,7 @@ fn format_variant(
             }
             _ => quote!(format!("{{ \"{}\": {} }}", #ts_name, #parsed_ty)),
         },
-        (false, Tagged::Adjacently { tag, content }) => match &variant.fields {
+        (false, Tagged::Adjacently { .. }) => match &variant.fields {
             Fields::Unnamed(unnamed) if unnamed.unnamed.len() == 1 => {
                 let field = &unnamed.unnamed[0];
                 let field_attr = FieldAttr::from_attrs(&unnamed.unnamed[0].attrs)?;
@@ -168,7 +177,7 @@ fn format_variant(
                 format!("{{ \"{}\": \"{}\", \"{}\": {} }}", #tag, #ts_name, #content, #parsed_ty)
             ),
         },
-        (false, Tagged::Internally { tag }) => match variant_type.inline_flattened {
+        (false, Tagged::Internally { .. }) => match variant_type.inline_flattened {
             Some(_) => {
                 quote! { #parsed_ty }
             }
